@@ -1,1 +1,93 @@
+(* C14/Properties.v — property theorems only: statement, `exact`, Print Assumptions. *)
+From Coq Require Import ZArith List Bool.
 From C14 Require Import Generated Model Spec Proofs Reflect.
+Import ListNotations.
+
+(* the facts the model follows, as regenerated from klongpy/sys_fn_ipc.py on this run *)
+Definition gen_flags : flags := mkFlags cleanup_iterates_snapshot finally_clears_writer.
+Definition gen_flags_ok : fl_ok gen_flags := conj eq_refl eq_refl.
+
+(* T14.sound — a history accepted by the checker satisfies the property's statement: every call made completes
+   exactly once; a value is the body of a response frame carrying the call's own id; an exception (or a no-op
+   close) only after the connection was lost, closed, or the server failed. *)
+Theorem C14_check_history_sound : forall n h, check_history n h = true -> hist_ok h.
+Proof. exact check_history_sound. Qed.
+Print Assumptions C14_check_history_sound.
+
+(* T14.match — ANY number of calls, any schedule: the keys of pending_responses are unique and their futures unresolved *)
+Theorem C14_match : forall closers s, reach gen_flags (init closers) s ->
+  NoDup (pending s) /\
+  forall k, In k (pending s) -> exists c, nth_error (calls s) k = Some c /\ c_fut c = FUnres.
+Proof. exact (fun closers s => match_invariant gen_flags closers s gen_flags_ok). Qed.
+Print Assumptions C14_match.
+
+(* ... and the only step that gives a future a value is the response frame with that call's id, while it is registered *)
+Theorem C14_response_resolves_own : forall s a s' ev k c c' b,
+  step gen_flags s a = Some (s', ev) ->
+  nth_error (calls s) k = Some c -> nth_error (calls s') k = Some c' ->
+  c_fut c' = FVal b -> c_fut c <> FVal b ->
+  exists ok, a = AResp k ok /\ In k (pending s) /\ b = resp_body k c.
+Proof. exact (response_resolves_own gen_flags). Qed.
+Print Assumptions C14_response_resolves_own.
+
+(* T14.drain — ANY number of calls: after the listener exited, writer is None, every future still registered belongs to a
+   caller whose send has not run yet (it will raise AttributeError) or has just raised, and no caller awaits an unresolved future *)
+Theorem C14_drain : forall closers s, reach gen_flags (init closers) s -> lst s = LExit ->
+  writer s = false /\
+  (forall k, In k (pending s) -> exists c, nth_error (calls s) k = Some c /\ c_fut c = FUnres /\
+     (c_pc c = PRegd \/ c_pc c = PSched \/ c_pc c = PDone (RExc XAttr))) /\
+  (forall k c, nth_error (calls s) k = Some c -> c_pc c = PAwait -> c_fut c <> FUnres).
+Proof. exact (fun closers s => drain_invariant gen_flags closers s gen_flags_ok). Qed.
+Print Assumptions C14_drain.
+
+(* ... so nobody waits forever: each caller under way has an enabled step of its own that moves it strictly forward *)
+Theorem C14_drain_progress : forall closers s k c, reach gen_flags (init closers) s -> lst s = LExit ->
+  nth_error (calls s) k = Some c -> c_pc c <> PIdle -> (forall r, c_pc c <> PDone r) ->
+  exists a s' ev c', In a [ARegister k; ASchedule k; ASend k; AComplete k] /\ step gen_flags s a = Some (s', ev) /\
+                     nth_error (calls s') k = Some c' /\ rank (c_pc c) < rank (c_pc c') /\ lst s' = LExit.
+Proof. exact (fun closers s k c => drain_progress gen_flags closers s k c gen_flags_ok). Qed.
+Print Assumptions C14_drain_progress.
+
+(* T14.all — for every configuration of nn ordinary calls and nc close() calls with nn + nc <= 3 and EVERY schedule tr
+   (any length: all interleavings of the callers' steps, all arrival orders, duplicates, pushes, loss / reset / close at
+   every point): the history never violates the checker, and whenever the run is maximal (no step of the client
+   enabled and the server owes no answer) the finished history passes check_history: nobody is left blocked.
+   Closed-finite-set reflection; the bound 3 is the property's own. *)
+Theorem C14_all : forall nn nc, nn + nc <= 3 ->
+  forall tr s h, exec gen_flags (init_cfg nn nc) tr = Some (s, h) ->
+    check_prefix (nn + nc) h = true /\
+    (quiescent gen_flags s = true -> check_history (nn + nc) h = true).
+Proof. exact (all_runs_pass_flags gen_flags finally_cleans_pending eq_refl eq_refl eq_refl). Qed.
+Print Assumptions C14_all.
+
+(* The loop `for future in self.pending_responses.values()` (the tree before fix: commit 65bab7f) is refuted: a maximal run of
+   three calls whose history fails the checker -- call 1 waits forever -- because call 2 registers during the loop. *)
+Theorem C14_live_dict_cleanup_refuted : exists s h,
+  exec (mkFlags false true) (init_cfg 3 0) race_trace = Some (s, h) /\ quiescent (mkFlags false true) s = true /\
+  check_history 3 h = false /\ lst s = LCrash /\
+  exists c, nth_error (calls s) 1 = Some c /\ c_pc c = PAwait /\ c_fut c = FUnres.
+Proof. exact race_refuted. Qed.
+
+(* Non-vacuity. A maximal run of two calls and a close() with responses out of order; R8's leak is reachable. *)
+Example C14_all_example :
+  exists s h, exec gen_flags (init_cfg 2 1)
+    [AInvoke 0; ARegister 0; AInvoke 1; ARegister 1; ASchedule 1; ASend 1; ASchedule 0; ASend 0; AResp 1 true; AInvoke 2;
+     AComplete 1; ARegister 2; ASchedule 2; ASend 2; AResp 2 true; AComplete 2; AComplete 0] = Some (s, h) /\
+  quiescent gen_flags s = true /\ check_history 3 h = true /\
+  h = [ECall 0; ECall 1; ESent 1; ESent 0; EResp 1 (BVal 1); ECall 2; ERet 1 (BVal 1); ESent 2; EResp 2 BClose; ELoss;
+       ERet 2 BClose; ERaise 0 XCloseConn].
+Proof. eexists. eexists. split; [vm_compute; reflexivity|]. split; [vm_compute; reflexivity|]. split; vm_compute; reflexivity. Qed.
+
+Example C14_drain_example :
+  exists s, reach gen_flags (init [false; false]) s /\ lst s = LExit /\ pending s = [1].
+Proof.
+  eexists. split.
+  - eapply reach_step. eapply reach_step. eapply reach_step. eapply reach_step. eapply reach_step. eapply reach_step. eapply reach_init.
+    + instantiate (3 := AInvoke 0). vm_compute. reflexivity.
+    + instantiate (3 := ARegister 0). vm_compute. reflexivity.
+    + instantiate (3 := AInvoke 1). vm_compute. reflexivity.
+    + instantiate (3 := APush false). vm_compute. reflexivity.
+    + instantiate (3 := ARegister 1). vm_compute. reflexivity.
+    + instantiate (3 := ASchedule 1). vm_compute. reflexivity.
+  - split; reflexivity.
+Qed.
